@@ -108,7 +108,7 @@ def check_C01(tier, seed, replay=None):
     groups += F.random_groups(seed, nrand, cfg, gi0=len(groups) + 1)
     inputs = F.all_inputs([F.A, F.B, F.UA], maxlen)
     nbase = len(inputs)
-    recin = add_rec(groups, inputs, nrand // 4, seed, alphabet=((F.A,), (F.B,), (F.UA,)), safe_rep=False)
+    recin = add_rec(groups, inputs, nrand // 8, seed, alphabet=((F.A,), (F.B,), (F.UA,)), safe_rep=False)
     options = [opt(), opt(maxexpr=3000), opt(entry="-"), opt(debug=True), opt(via="reader"), opt(via="file"), opt(entry="No_such_rule")]
     allin = list(range(nbase))
     run.keep_debug = True
@@ -125,7 +125,7 @@ def check_C01(tier, seed, replay=None):
     u8in = list(range(u8first, len(inputs)))
 
     def plan_for(g):
-        oi = 1 if g.maydiverge else 0
+        oi = 1 if g.maydiverge or "rec" in g.tags else 0          # recursive groups: always under the budget (bounded reference evaluation)
         if "u8" in g.tags:
             return [(ii, oi) for ii in u8in]
         pl = [(ii, oi) for ii in allin]
@@ -136,7 +136,7 @@ def check_C01(tier, seed, replay=None):
         if g.gi % 7 == 2:
             pl += [(ii, 6) for ii in allin[:3]]                                          # an Entrypoint that does not exist
         if "rec" in g.tags:
-            pl += [(ii, oi) for ii in recin] + ([(ii, 3) for ii in recin[::4]] if not g.maydiverge and g.gi % 2 == 0 else [])
+            pl += [(ii, oi) for ii in recin]
         return pl
     div, tot = run.execute(groups, inputs, options, plan_for, flagsets, pack_size=100, noentry_oi=2, lower=F.FOLD_PAIRS)
     design_level(run, groups, inputs, options, lambda g: [1] if g.maydiverge else [0], 192 if tier == "quick" else 100000, inputs_idx=allin,
@@ -235,7 +235,7 @@ def check_C02(tier, seed, replay=None):
         if not g.maydiverge and g.gi % 3 == 1:
             pl += [(ii, 4) for ii in range(0, nin, 2)]       # Debug(true): every printed position is checked against M (T2, PosIsPure)
         if "rec" in g.tags:
-            pl += [(ii, oi) for ii in recin for oi in ((2,) if g.maydiverge else (0, 1))]
+            pl = [(ii, oi) for ii in list(range(0, nin, 2)) + recin for oi in (2, 3)]       # always under the budget
         return pl
     div, tot = run.execute(groups, inputs, options, plan_for, flagsets, lower=[[201, 233]], cmp=dict(ctx=True))
     design_level(run, groups, inputs, options, lambda g: [0], 250 if tier == "quick" else 3000, inputs_idx=range(nin))
@@ -275,7 +275,7 @@ def add_lr(groups, inputs, n, seed, maxlen=4, pure=False):
     return list(range(first, len(inputs)))
 
 
-def add_rec(groups, inputs, n, seed, alphabet=((F.A,), (F.B,)), nlong=24, **kw):
+def add_rec(groups, inputs, n, seed, alphabet=((F.A,), (F.B,)), nlong=12, **kw):
     """right- and mutually recursive grammars (a rule entered again after one rune was consumed), with a few longer inputs of
     their own: nesting as deep as the input is long (rule stack, label scopes, memo rows of many frames)"""
     cfg = F.RandCfg(**dict(dict(depth=4, maxrules=3, recursive=True), **kw))
@@ -286,11 +286,13 @@ def add_rec(groups, inputs, n, seed, alphabet=((F.A,), (F.B,)), nlong=24, **kw):
     first = len(inputs)
     rng = random.Random(seed + 401)
     for _ in range(nlong):
-        inputs.append([b for _k in range(rng.randint(5, 9)) for b in rng.choice(alphabet)])
+        inputs.append([b for _k in range(rng.randint(4, 7)) for b in rng.choice(alphabet)])
     return list(range(first, len(inputs)))
 
 
-def with_rec(plan, recin, ois=lambda g: (1,) if g.maydiverge else (0,)):
+def with_rec(plan, recin, ois=lambda g: (1,)):
+    """recursive groups always run under the budget option (index 1 in the checks that use this helper): backtracking over a
+    recursive grammar can take exponentially many evaluations, and the reference evaluation in TLC is bounded by the same budget"""
     def f(g):
         pl = plan(g)
         if "rec" in g.tags:
@@ -423,7 +425,7 @@ def check_C06(tier, seed, replay=None):
 
     def plan_for(g):
         if "rec" in g.tags:
-            ois = [8 + i for i, c in enumerate(combos) if not c[0]] if g.maydiverge else list(range(8))
+            ois = [8 + i for i, c in enumerate(combos) if not c[0]] if g.maydiverge else list(range(8, 16))       # always under the budget
             return [(ii, oi) for ii in list(range(0, nin, 2)) + recin for oi in ois]
         if "lr" in g.tags:
             return [(ii, oi) for ii in lrin for oi in range(8)]
@@ -491,6 +493,22 @@ def check_C10(tier, seed, replay=None):
     foldin = list(range(fold_first, len(inputs)))
     recin = add_rec(groups, inputs, n // 2, seed, alphabet=((F.A,), (F.B,), (F.NL,)), state=True, cloner=True, preds=True, errs=0.2, throw=True)
     bp = with_rec(budget_plan(nin, lr_inputs=lrin), recin)
+    # ill-formed input (C17's family): terminals of one and several runes, U+FFFD as a literal and as a class member, input bytes
+    # that are no UTF-8; with and without AllowInvalidUTF8 -- the two parsers of a pair must report the same errors and values
+    FF = F.FFFD
+    badleaves = [("any",), ("cls", (FF,), (), False, False), ("cls", (F.A,), (), True, False), ("lit", (FF,), False), ("lit", (F.A,), False),
+                 ("lit", (F.A, F.B), False), ("lit", (F.A, F.EACUTE), False), ("lit", (F.A, F.B, F.A), False), ("lit", (F.A, FF), False), ("lit", (F.B, F.A), True)]
+    bad = F.groups_from_trees(F.exhaustive(1, badleaves[:8]), gi0=len(groups) + 1)
+    bad += F.random_groups(seed + 8, n // 3, F.RandCfg(depth=3, maxrules=2, leaves=badleaves, preds=True), len(groups) + len(bad) + 1)
+    for g in bad:
+        g.tags.add("bad8")
+    groups += bad
+    bad_first = len(inputs)
+    inputs += F.all_inputs([0x61, 0x62, 0xC3, 0xA9, 0xFF, 0x80, 0xEF, 0xBF, 0xBD], 3)
+    badin = list(range(bad_first, len(inputs)))
+    options.append(opt(allowinv=True))
+    options.append(opt(allowinv=True, maxexpr=3000))
+    allow_oi = len(options) - 2
 
     # a code block that panics (the panic is contained and reported): the parses that FOLLOW in the same process must not
     # see anything of it (stacks, pooled parser parts)
@@ -502,6 +520,8 @@ def check_C10(tier, seed, replay=None):
             panic_oi[g.gi] = len(options) - 1
 
     def plan10(g):
+        if "bad8" in g.tags:
+            return [(ii, oi) for ii in badin for oi in ((1, allow_oi + 1) if g.maydiverge else (0, allow_oi))]
         if "fold" in g.tags:
             return [(ii, 1 if g.maydiverge else 0) for ii in foldin]
         if g.gi in panic_oi:
@@ -1479,6 +1499,19 @@ def c04_groups(seed, tier):
             roots.append(g.seq(items) if len(items) > 1 else items[0])
         g.rules = roots
         add(g)
+    # (a2) rule names that differ only in letter case, in underscores or by a non-ASCII letter, with the SAME shape (so that
+    # their code blocks have the same expression indices): the method names derived from them must still be distinct
+    for fam in (["Ident", "ident", "IDENT", "iDent"], ["Ab_c", "A_bc", "Abc_", "Abc"], ["\u00c9l", "\u00e9l", "El", "el"], ["X", "x", "X_", "_x"]):
+        g = Gram(len(groups) + 1)
+        g.idents = [n + ("%d" % g.gi if n[-1] != "_" else "q%d" % g.gi) for n in fam]
+        roots = []
+        for ri in range(4):
+            alts = [g.action(g.lit([F.A + j])) for j in range(2)] + [g.seq([g.pred(False, "true"), g.action(g.lit([F.B]))])]
+            if ri < 3:
+                alts.append(g.seq([g.lit([120]), g.ref(ri + 2)]))
+            roots.append(g.choice(alts))
+        g.rules = roots
+        add(g)
     # (b) labels in every scoping construct, shared between alternatives, nested
     cfg = F.RandCfg(depth=4, maxrules=3, preds=True, state=True, cloner=True, throw=True)
     for i in range(25 if tier == "quick" else 150):
@@ -1641,8 +1674,10 @@ def check_C04(tier, seed, replay=None):
         g = gs[0]
         fid = None
         if len(gs) == 1:
-            if r["stage"] == "build" and ("already declared" in r["err"] or "redeclared" in r["err"]) and g.idents:
-                fid = "F13"      # shape confirmed below by Builder.tla (names-clash)
+            names_ = [g.rname(i + 1) for i in range(len(g.rules))] + [g.sname()]
+            f13shape = any(a != b and b.startswith(a) and b[len(a):].isdigit() for a in names_ for b in names_)
+            if r["stage"] == "build" and ("already declared" in r["err"] or "redeclared" in r["err"]) and g.idents and f13shape:
+                fid = "F13"      # only in the finding's shape: one rule name is another one followed by digits (Builder.tla: names-clash)
             if r["stage"] == "build" and "-optimize-grammar" in fl and ("duplicate argument" in r["err"] or "redeclared" in r["err"]) and \
                     any(n["k"] == "label" for n in g.nodes):
                 fid = "F14"
@@ -1835,9 +1870,24 @@ def check_C13(tier, seed, replay=None):
             b"A <- 'a' { " + b"{" * 300 + b"}" * 300 + b" return nil, nil }\n", b"A <- " + b" / ".join(b"'a%d'" % i for i in range(1500)) + b"\n",
             b"A <- " + b" ".join(b"'a'" for i in range(3000)) + b"\n", b"".join(b"R%d <- R%d 'x' / 'y'\n" % (i, i + 1) for i in range(120)) + b"R120 <- 'z'\n",      # (the optimizer is cubic in such a chain: 400 rules take a minute)
             b"A <- [" + b"a-z" * 500 + b"]\n", b"A <- \"" + b"\\u00e9" * 2000 + b"\"\n"]
+    # code blocks whose text is empty, blank or a comment only, for every kind of block and the initializer (the builder trims
+    # and re-indents the text of a block)
+    for body in (b"", b" ", b"\n", b"\n\n", b"\r\n\n", b"\n\n\n", b"\t", b" \n \n", b"\r\n\r\n", b" // c\n", b"/**/", b"\n\n\treturn nil, nil\n\n", b"\n}{\n"):
+        odd += [b"A <- 'a' {" + body + b"}\n", b"A <- &{" + body + b"} 'a'\n", b"A <- !{" + body + b"} 'a'\n", b"A <- #{" + body + b"} 'a'\n",
+                b"A <- 'a' {" + body + b"} / 'b' {" + body + b"}\nB <- #{" + body + b"}\n"]
+        texts.append(("odd", b"{" + body + b"}\nA <- 'a'\n"))
     for o in odd:
         texts.append(("odd", head + o))
         texts.append(("odd", o))
+    # rules whose references form a DAG (every rule refers two or three times to the next): an analysis that visits a rule
+    # again from every reference to it takes time exponential in the length of the chain (repaired defect F28)
+    def dag(n, body, last=b"'x'"):
+        return head + b"".join(b"A%d <- " % i + body.replace(b"@", b"A%d" % (i + 1)) + b"\n" for i in range(n)) + b"A%d <- " % n + last + b"\n"
+    texts += [("dag", dag(60, b"@ / @")), ("dag", dag(200, b"@ / @")), ("dag", dag(60, b"@ @? / &@ 'y' / @")), ("dag", dag(80, b"l:@ { return l, nil } / @")),
+              ("dag", dag(40, b"@ / @", b"N A0 'x' / 'y'") + b"N <- 'n'?\n"), ("dag", dag(50, b"(@ //{e} @) / @", b"'x' %{e} / 'z'"))]
+    # known finding F32: -optimize-grammar inlines every rule without references wherever it is used, so on such a chain the
+    # optimised grammar doubles with every rule: out of memory (a Go crash trace) instead of a parser or a diagnostic
+    texts.append(("kf32", dag(34, b"@ / @")))
     for v in lrtexts:
         texts.append(("leftrec", v))
     base_flags = ["-optimize-grammar", "-optimize-parser", "-optimize-basic-latin", "-support-left-recursion", "-nolint", "-cache", "-x", "-debug", "-no-recover"]
@@ -1849,13 +1899,18 @@ def check_C13(tier, seed, replay=None):
         pth = os.path.join(d, "t%d.peg" % i)
         with open(pth, "wb") as f:
             f.write(t)
-        nf = 1 if kind == "bytes" else (4 if tier == "quick" else 8)
+        nf = 1 if kind in ("bytes", "kf32") else (4 if tier == "quick" else 8)
         for j in range(nf):
             if kind == "sweep":
                 fl = [["-optimize-basic-latin"], ["-optimize-basic-latin", "-optimize-parser"], ["-optimize-grammar", "-optimize-basic-latin"], [],
                       ["-optimize-grammar", "-optimize-parser"], ["-support-left-recursion", "-optimize-basic-latin", "-nolint"], ["-optimize-parser"], ["-optimize-grammar"]][j]
             elif kind == "leftrec":
                 fl = [["-support-left-recursion"], [], ["-support-left-recursion", "-optimize-parser"], ["-support-left-recursion", "-optimize-grammar"]][j % 4]
+            elif kind == "dag":
+                fl = [[], ["-optimize-parser"], ["-support-left-recursion", "-nolint"], ["-optimize-basic-latin", "-cache"],
+                      ["-x"], ["-support-left-recursion", "-optimize-parser"], ["-debug"], ["-no-recover"]][j % 8]
+            elif kind == "kf32":
+                fl = ["-optimize-grammar"]
             elif kind == "bytes":
                 fl = [] if i % 3 else ["-optimize-grammar"]
             elif j == 0:
@@ -1929,7 +1984,7 @@ def check_C13(tier, seed, replay=None):
         else:
             ok = "incomplete"
         return dict(k=k, rc=rc, diag=diag, out=ok, panic=diag == "panic", timeout=tmo, h=("-h" in fl or "-help" in fl), x="-x" in fl,
-                    o="-o" in fl, nargs=len(args), norecover="-no-recover" in fl), err[-600:]
+                    o="-o" in fl, nargs=len(args), norecover="-no-recover" in fl), err[-600:], "out of memory" in err
     res = P.parallel(one, jobs, workers=16)
     # every complete output must be syntactically valid Go
     fm = P.sh(["gofmt", "-l", "-e", outdir], check=False, timeout=900)
@@ -1950,6 +2005,15 @@ def check_C13(tier, seed, replay=None):
         run.notes.append("model drift: %d observations are allowed outcomes but not terminal states of Cli.tla (first: flags=%s status=%s class=%s)" % (
             len(drift), " ".join(j0[3]), res[drift[0]["k"] - 1][0]["rc"], res[drift[0]["k"] - 1][0]["diag"]))
     div = [dd for dd in div if dd["df"] != "not-reachable"]
+    # known finding F32: its witness (and nothing else) may end in the out-of-memory crash
+    import findings
+    kf32 = {j[0] for j in jobs if j[1] == "kf32"}
+    hit32 = [dd for dd in div if dd["k"] in kf32 and res[dd["k"] - 1][0]["panic"] and res[dd["k"] - 1][2]]
+    if hit32:
+        run.known.append("F32: " + findings.what("F32"))
+    elif any(f["id"] == "F32" for f in findings.active("C13")):
+        run.notes.append("known finding F32: its witness no longer fails on this tree (entry can be retired)")
+    div = [dd for dd in div if dd not in hit32]
     for dd in div:
         nviol += 1
         if nviol <= 25:
